@@ -7,7 +7,7 @@ Every random choice comes from one SplitMix64 state, so a trace is reproducible 
   own    operation whose (projected) output the property under check speaks about
 """
 
-GEN_VERSION = 11
+GEN_VERSION = 12
 
 MASK64 = (1 << 64) - 1
 
@@ -375,7 +375,7 @@ def ops_C11(t, reg):
         act = r.pick(["prefix", "value", "pv", "has", "iter", "walk", "aspv", "aspv"])
         t.emit("viewmut %s %s : %s" % (reg, " ".join(st), act), "own")
     else:
-        act = r.pick(["prefix", "value", "pv", "iter", "keys", "values", "walk", "has", "aspv"])
+        act = r.pick(["prefix", "value", "pv", "iter", "keys", "values", "walk", "has", "aspv", "intoiter"])
         t.emit("view %s %s : %s" % (reg, " ".join(st), act), "own")
 
 
@@ -691,7 +691,13 @@ def gen_C19(t, n):
         elif c < 60:
             t.emit("eq A A", "own")
         elif c < 70:
-            t.emit("serde A", "own")
+            if r.chance(35):
+                for _ in range(r.below(5)):
+                    t.emit("insert S %s 0" % t.u.p(), "own")
+                t.emit("serde S", "own")
+                t.emit("collect_self S", "own")
+            else:
+                t.emit("serde A", "own")
         else:
             t.bg("A", role="own")
             if r.chance(50):
